@@ -356,21 +356,17 @@ def escape_json_string(s: str, escaped: bool = False) -> str:
 
 
 def unescape_json_string(s: str) -> str:
+    # a single left-to-right pass: the text produced by an escape is never unescaped again
+    simple_escapes = {'"': '"', '\\': '\\', '/': '/', 'b': '\b',
+                      'f': '\f', 'n': '\n', 'r': '\r', 't': '\t'}
 
-    def unicode_escape_callback(match: re.Match[str]) -> str:
-        group = match.group(1) or match.group(2)
-        return chr(int(group.upper(), 16))
+    def escape_callback(match: re.Match[str]) -> str:
+        group = match.group(1)
+        if len(group) == 1:
+            return simple_escapes[group]
+        return chr(int(group[1:], 16))
 
-    s = s.replace('\\"', '\"').\
-        replace(r'\b', '\b').\
-        replace(r'\r', '\r').\
-        replace(r'\n', '\n').\
-        replace(r'\t', '\t').\
-        replace(r'\f', '\f').\
-        replace(r'\/', '/').\
-        replace('\\\\', '\\')
-
-    return Patterns.unicode_escape.sub(unicode_escape_callback, s)
+    return re.sub(r'\\(["\\/bfnrt]|u[0-9A-Fa-f]{4}|U[0-9A-Fa-f]{8})', escape_callback, s)
 
 
 def split_function_test(function_test: str) -> list[str]:
